@@ -15,14 +15,22 @@
   the small-step machine for arbitrary interleavings: a step processes ONE role header; its
   signature only lets it read the finished ancestors' stack (`Ctx`) and write its own node.
 
-  The model reproduces three behaviours of the code that the property does not want
-  (recorded as findings; the events are reported in `Out.ev`):
+  Configurations (`Cfg`). The code used to show three behaviours that the property does not
+  want (findings iterator_enabled_expr, hollow_iterator, enabled_error_masked); two repairs in
+  /repo removed them (notes/C15.fix-1.patch, fix-2.patch). `codeCfg` is THE CODE AS IT IS,
+  `legacyCfg` the code as it was, so that the former refutations stay true statements about
+  the former code. The events are still computed (`Out.ev`), for either configuration:
     * masked   – an error while evaluating `enabled` is swallowed by the stage-0 callback:
-                 the role counts as disabled (roleutils.go:MakeDisabledRoleCallback)
+                 the role counts as disabled (roleutils.go:MakeDisabledRoleCallback).
+                 `Cfg.maskEnabledError`; the code as it is passes the error on.
     * iterDrop – the parent keeps/drops an iterator by `template.IsEnabled()` on the RAW,
-                 unprocessed `enabled` text of the iterator's template (iteratorrole.go:IsEnabled)
-    * hollow   – an aggregator's "am I empty" test counts iterator nodes, also iterators
-                 that expanded to nothing (aggregatorrole.go: len(r.Roles) == 0)
+                 unprocessed `enabled` text of the iterator's template (iteratorrole.go:IsEnabled).
+                 `Cfg.iterByRawText`; the code as it is keeps an iterator iff it still holds
+                 a generated role (`len(i.Roles) > 0`).
+    * hollow   – an aggregator's "am I empty" test (`len(r.Roles) == 0`, unchanged) counts
+                 iterator nodes; with the legacy rule also iterators that expanded to nothing
+                 stayed in `Roles`. With the rule of the code as it is an iterator that holds
+                 nothing is filtered out first, so the event cannot occur (`proc_code_solid`).
 -/
 import ControlModel.Basic
 
@@ -331,7 +339,7 @@ def Ctx.lookRange (c : Ctx) : Look := lookupChain [c.U, c.V, c.D]
 
 inductive HdrRes where
   | error
-  /-- evaluating `enabled` failed; the code treats the role as disabled -/
+  /-- evaluating `enabled` failed (the legacy code treated the role as disabled, see `maskedOut`) -/
   | masked
   | disabled
   | ok (i : Info) (c : Ctx) (extra : List String)
@@ -387,6 +395,26 @@ def Out.seq (a b : Out) : Out := ⟨a.err || b.err, a.f ++ b.f, a.ev.or b.ev⟩
 
 def Out.empty : Out := {}
 
+/-- Which of the two repaired spots behaves how (see the file header). -/
+structure Cfg where
+  /-- a failed evaluation of `enabled` is turned into "role disabled" instead of failing the load -/
+  maskEnabledError : Bool
+  /-- `iteratorRole.IsEnabled()` answers with the truthiness of the template's raw `enabled` text
+      (else: with "the iterator still holds a generated role") -/
+  iterByRawText : Bool
+  deriving Repr, DecidableEq, Inhabited
+
+/-- the code as it is (after `fix:` C15.fix-1 and C15.fix-2) -/
+def codeCfg : Cfg := { maskEnabledError := false, iterByRawText := false }
+
+/-- the code as it was -/
+def legacyCfg : Cfg := { maskEnabledError := true, iterByRawText := true }
+
+/-- What a role whose `enabled` could not be evaluated contributes: silently nothing (legacy),
+    or a failed load. -/
+def maskedOut (cfg : Cfg) : Out :=
+  if cfg.maskEnabledError then ⟨false, .nil, { masked := true }⟩ else ⟨true, .nil, {}⟩
+
 /-- Does a processed sibling list contain a real role once iterators are made transparent? -/
 def hasNode : Tree → Bool
   | .nil => false
@@ -403,9 +431,9 @@ def rawEnabled : Tmpl → Bool
   | _ => false
 
 /-- A leaf (task/call) after its header. -/
-def leafOut (mk : Info → List String → Tree) : HdrRes → Out
+def leafOut (cfg : Cfg) (mk : Info → List String → Tree) : HdrRes → Out
   | .error => ⟨true, .nil, {}⟩
-  | .masked => ⟨false, .nil, { masked := true }⟩
+  | .masked => maskedOut cfg
   | .disabled => Out.empty
   | .ok i _ ex => ⟨false, mk i ex, {}⟩
 
@@ -415,9 +443,14 @@ def aggOut (i : Info) (k : Out) : Out :=
   | .nil => ⟨k.err, .nil, k.ev⟩
   | kf => ⟨k.err, .agg i kf .nil, k.ev.or { hollow := !hasNode kf }⟩
 
-/-- An iterator after its children: kept by the parent iff the template's raw `enabled` is truthy. -/
-def iterOut (keep : Bool) (k : Out) : Out :=
-  if keep then ⟨k.err, .iter k.f .nil, k.ev⟩
+/-- `iteratorRole.IsEnabled()` after the iterator processed its children (`kf` = the generated
+    roles that are left); `raw` = truthiness of the template's raw `enabled` text. -/
+def iterKeep (cfg : Cfg) (raw : Bool) (kf : Tree) : Bool :=
+  if cfg.iterByRawText then raw else !kf.isNil
+
+/-- An iterator after its children: kept by the parent iff `IsEnabled()`. -/
+def iterOut (cfg : Cfg) (raw : Bool) (k : Out) : Out :=
+  if iterKeep cfg raw k.f then ⟨k.err, .iter k.f .nil, k.ev⟩
   else ⟨k.err, .nil, k.ev.or { iterDrop := hasNode k.f }⟩
 
 /-- `taskRole.resolveTaskClassIdentifier` with the harness's repository
@@ -431,28 +464,28 @@ def resolveExtra : List String → List String
 
 /-- Big-step `ProcessTemplates` on a sibling list whose members all have locals `loc`
     and ancestors' stack `ctx` (accumulating = concurrent code path). -/
-def proc (ctx : Ctx) (loc : Env) : Tmpl → Out
+def proc (cfg : Cfg) (ctx : Ctx) (loc : Env) : Tmpl → Out
   | .nil => Out.empty
   | .agg h kids next =>
     let me : Out :=
       match procHdr ctx loc h [] with
       | .error => ⟨true, .nil, {}⟩
-      | .masked => ⟨false, .nil, { masked := true }⟩
+      | .masked => maskedOut cfg
       | .disabled => Out.empty
-      | .ok i c' _ => aggOut i (proc c' [] kids)
-    me.seq (proc ctx loc next)
+      | .ok i c' _ => aggOut i (proc cfg c' [] kids)
+    me.seq (proc cfg ctx loc next)
   | .task h extra crit next =>
-    (leafOut (fun i ex => .task i (resolveExtra ex) crit .nil) (procHdr ctx loc h extra)).seq (proc ctx loc next)
+    (leafOut cfg (fun i ex => .task i (resolveExtra ex) crit .nil) (procHdr ctx loc h extra)).seq (proc cfg ctx loc next)
   | .call h extra crit next =>
-    (leafOut (fun i ex => .call i ex crit .nil) (procHdr ctx loc h extra)).seq (proc ctx loc next)
+    (leafOut cfg (fun i ex => .call i ex crit .nil) (procHdr ctx loc h extra)).seq (proc cfg ctx loc next)
   | .iter rng var body next =>
     let me : Out :=
       match evalRange ctx.lookRange rng with
       | none => ⟨true, .nil, {}⟩
       | some vals =>
-        iterOut (rawEnabled body)
-          (vals.foldr (fun v acc => (proc ctx [(var, v)] body).seq acc) Out.empty)
-    me.seq (proc ctx loc next)
+        iterOut cfg (rawEnabled body)
+          (vals.foldr (fun v acc => (proc cfg ctx [(var, v)] body).seq acc) Out.empty)
+    me.seq (proc cfg ctx loc next)
 
 /-- What `Load` hands back. -/
 inductive Loaded where
@@ -469,7 +502,7 @@ def Out.loaded (o : Out) : Loaded :=
   | t => .tree t
 
 /-- Load a workflow: process the root role (a one-element sibling list) with an empty stack. -/
-def load (t : Tmpl) : Loaded := (proc {} [] t).loaded
+def load (cfg : Cfg) (t : Tmpl) : Loaded := (proc cfg {} [] t).loaded
 
 /-! ## sequential code path: the first error returns -/
 
@@ -491,51 +524,51 @@ def seqCat (a b : Except Unit Tree) : Except Unit Tree :=
     | .error e => .error e
     | .ok y => .ok (x ++ y)
 
-def procSeq (ctx : Ctx) (loc : Env) : Tmpl → Except Unit Tree
+def procSeq (cfg : Cfg) (ctx : Ctx) (loc : Env) : Tmpl → Except Unit Tree
   | .nil => .ok .nil
   | .agg h kids next =>
     match procHdr ctx loc h [] with
     | .error => .error ()
-    | .masked => procSeq ctx loc next
-    | .disabled => procSeq ctx loc next
+    | .masked => if cfg.maskEnabledError then procSeq cfg ctx loc next else .error ()
+    | .disabled => procSeq cfg ctx loc next
     | .ok i c' _ =>
-      match procSeq c' [] kids with
+      match procSeq cfg c' [] kids with
       | .error e => .error e
       | .ok kf =>
-        match procSeq ctx loc next with
+        match procSeq cfg ctx loc next with
         | .error e => .error e
         | .ok r => .ok (aggTree i kf ++ r)
   | .task h extra crit next =>
     match procHdr ctx loc h extra with
     | .error => .error ()
-    | .masked => procSeq ctx loc next
-    | .disabled => procSeq ctx loc next
+    | .masked => if cfg.maskEnabledError then procSeq cfg ctx loc next else .error ()
+    | .disabled => procSeq cfg ctx loc next
     | .ok i _ ex =>
-      match procSeq ctx loc next with
+      match procSeq cfg ctx loc next with
       | .error e => .error e
       | .ok r => .ok (.task i (resolveExtra ex) crit r)
   | .call h extra crit next =>
     match procHdr ctx loc h extra with
     | .error => .error ()
-    | .masked => procSeq ctx loc next
-    | .disabled => procSeq ctx loc next
+    | .masked => if cfg.maskEnabledError then procSeq cfg ctx loc next else .error ()
+    | .disabled => procSeq cfg ctx loc next
     | .ok i _ ex =>
-      match procSeq ctx loc next with
+      match procSeq cfg ctx loc next with
       | .error e => .error e
       | .ok r => .ok (.call i ex crit r)
   | .iter rng var body next =>
     match evalRange ctx.lookRange rng with
     | none => .error ()
     | some vals =>
-      match vals.foldr (fun v acc => seqCat (procSeq ctx [(var, v)] body) acc) (Except.ok Tree.nil) with
+      match vals.foldr (fun v acc => seqCat (procSeq cfg ctx [(var, v)] body) acc) (Except.ok Tree.nil) with
       | .error e => .error e
       | .ok kf =>
-        match procSeq ctx loc next with
+        match procSeq cfg ctx loc next with
         | .error e => .error e
-        | .ok r => .ok ((if rawEnabled body then Tree.iter kf .nil else .nil) ++ r)
+        | .ok r => .ok ((if iterKeep cfg (rawEnabled body) kf then Tree.iter kf .nil else .nil) ++ r)
 
-def loadSeq (t : Tmpl) : Loaded :=
-  match procSeq {} [] t with
+def loadSeq (cfg : Cfg) (t : Tmpl) : Loaded :=
+  match procSeq cfg {} [] t with
   | .error _ => .error
   | .ok f =>
     match f.flatten with
@@ -573,8 +606,8 @@ inductive PT where
   | aggW (i : Info) (kids : PT) (next : PT)
   /-- finished leaf -/
   | leaf (o : Out) (next : PT)
-  /-- iterator already expanded; `keep` = raw `enabled` of its template -/
-  | iterW (keep : Bool) (kids : PT) (next : PT)
+  /-- iterator already expanded; `raw` = truthiness of the raw `enabled` text of its template -/
+  | iterW (raw : Bool) (kids : PT) (next : PT)
   deriving Repr, Inhabited
 
 /-- One pending copy of the iterator's template per range element, in range order. -/
@@ -583,19 +616,19 @@ def expandPend (ctx : Ctx) (var : String) (body : Tmpl) : List String → PT
   | v :: vs => .pend ctx [(var, v)] body (expandPend ctx var body vs)
 
 /-- Run the goroutine of the FIRST role of a pending sibling list: one header. -/
-def fire (ctx : Ctx) (loc : Env) (next : PT) : Tmpl → PT
+def fire (cfg : Cfg) (ctx : Ctx) (loc : Env) (next : PT) : Tmpl → PT
   | .nil => next
   | .agg h kids nx =>
     let rest := PT.pend ctx loc nx next
     match procHdr ctx loc h [] with
     | .error => .leaf ⟨true, .nil, {}⟩ rest
-    | .masked => .leaf ⟨false, .nil, { masked := true }⟩ rest
+    | .masked => .leaf (maskedOut cfg) rest
     | .disabled => rest
     | .ok i c' _ => .aggW i (.pend c' [] kids .nil) rest
   | .task h extra crit nx =>
-    .leaf (leafOut (fun i ex => .task i (resolveExtra ex) crit .nil) (procHdr ctx loc h extra)) (.pend ctx loc nx next)
+    .leaf (leafOut cfg (fun i ex => .task i (resolveExtra ex) crit .nil) (procHdr ctx loc h extra)) (.pend ctx loc nx next)
   | .call h extra crit nx =>
-    .leaf (leafOut (fun i ex => .call i ex crit .nil) (procHdr ctx loc h extra)) (.pend ctx loc nx next)
+    .leaf (leafOut cfg (fun i ex => .call i ex crit .nil) (procHdr ctx loc h extra)) (.pend ctx loc nx next)
   | .iter rng var body nx =>
     let rest := PT.pend ctx loc nx next
     match evalRange ctx.lookRange rng with
@@ -616,29 +649,29 @@ structure Step where
   split : Option Nat
   deriving Repr, Inhabited
 
-def stepAt : PT → List Dir → Option Nat → PT
-  | .pend ctx loc t next, [], none => fire ctx loc next t
+def stepAt (cfg : Cfg) : PT → List Dir → Option Nat → PT
+  | .pend ctx loc t next, [], none => fire cfg ctx loc next t
   | .pend ctx loc t next, [], some k => .pend ctx loc (t.take k) (.pend ctx loc (t.drop k) next)
-  | .pend ctx loc t next, .right :: p, s => .pend ctx loc t (stepAt next p s)
-  | .aggW i kids next, .right :: p, s => .aggW i kids (stepAt next p s)
-  | .aggW i kids next, .down :: p, s => .aggW i (stepAt kids p s) next
-  | .leaf o next, .right :: p, s => .leaf o (stepAt next p s)
-  | .iterW kp kids next, .right :: p, s => .iterW kp kids (stepAt next p s)
-  | .iterW kp kids next, .down :: p, s => .iterW kp (stepAt kids p s) next
+  | .pend ctx loc t next, .right :: p, s => .pend ctx loc t (stepAt cfg next p s)
+  | .aggW i kids next, .right :: p, s => .aggW i kids (stepAt cfg next p s)
+  | .aggW i kids next, .down :: p, s => .aggW i (stepAt cfg kids p s) next
+  | .leaf o next, .right :: p, s => .leaf o (stepAt cfg next p s)
+  | .iterW kp kids next, .right :: p, s => .iterW kp kids (stepAt cfg next p s)
+  | .iterW kp kids next, .down :: p, s => .iterW kp (stepAt cfg kids p s) next
   | t, _, _ => t
 
-def run (s : PT) : List Step → PT
+def run (cfg : Cfg) (s : PT) : List Step → PT
   | [] => s
-  | st :: rest => run (stepAt s st.path st.split) rest
+  | st :: rest => run cfg (stepAt cfg s st.path st.split) rest
 
 /-- Let every goroutine that has not run yet run to completion, then collect (wg.Wait,
     error accumulation, filtering of disabled children, self-disable when empty). -/
-def finish : PT → Out
+def finish (cfg : Cfg) : PT → Out
   | .nil => Out.empty
-  | .pend ctx loc t next => (proc ctx loc t).seq (finish next)
-  | .aggW i kids next => (aggOut i (finish kids)).seq (finish next)
-  | .leaf o next => o.seq (finish next)
-  | .iterW keep kids next => (iterOut keep (finish kids)).seq (finish next)
+  | .pend ctx loc t next => (proc cfg ctx loc t).seq (finish cfg next)
+  | .aggW i kids next => (aggOut i (finish cfg kids)).seq (finish cfg next)
+  | .leaf o next => o.seq (finish cfg next)
+  | .iterW raw kids next => (iterOut cfg raw (finish cfg kids)).seq (finish cfg next)
 
 /-- Did some goroutine that already ran hit a template error? -/
 def hasFailed : PT → Bool
@@ -649,8 +682,8 @@ def hasFailed : PT → Bool
   | .iterW _ kids next => hasFailed kids || hasFailed next
 
 /-- Concurrent load under an arbitrary schedule. -/
-def loadConc (sched : List Step) (t : Tmpl) : Loaded :=
-  (finish (run (.pend {} [] t .nil) sched)).loaded
+def loadConc (cfg : Cfg) (sched : List Step) (t : Tmpl) : Loaded :=
+  (finish cfg (run cfg (.pend {} [] t .nil) sched)).loaded
 
 /-- The three switches of the code (viper keys concurrentWorkflowTemplateProcessing,
     concurrentWorkflowTemplateIteratorProcessing, concurrentIteratorRoleExpansion). -/
@@ -662,7 +695,7 @@ structure Switches where
 
 /-- Any setting: everything sequential is `loadSeq`; as soon as something is concurrent
     the children run under some schedule. -/
-def loadWith (sw : Switches) (sched : List Step) (t : Tmpl) : Loaded :=
-  if !sw.aggConc && !sw.iterConc && !sw.expandConc then loadSeq t else loadConc sched t
+def loadWith (cfg : Cfg) (sw : Switches) (sched : List Step) (t : Tmpl) : Loaded :=
+  if !sw.aggConc && !sw.iterConc && !sw.expandConc then loadSeq cfg t else loadConc cfg sched t
 
 end Load
